@@ -1,8 +1,8 @@
 (** Typed/Font.v — font.rs: the hand-written Object/ObjectWrite pair of Font, for simple fonts (Subtype Type1 / TrueType,
-    data = TFont) without /Encoding and /ToUnicode; everything else is [unmodelled].  Far enough to exhibit finding C15-e:
-    the entries Font keeps in `_other` are not written back.  Not wired into the correspondence (the harness judges Font
+    data = TFont) without /Encoding and /ToUnicode; everything else is [unmodelled].  Finding C15-e (the entries Font keeps in `_other` were
+    not written back) is fixed: the writer merges them ([merge_other], [merge_other_keeps], [font_mapped_keys_match]).  Not wired into the correspondence (the harness judges Font
     by the specification oracle only); the witness below is replayed on the real code on every run. *)
-From PdfV Require Import Base.Prelude Gen.Generated Typed.Prim Typed.Schema Typed.Derive Typed.Hand.
+From PdfV Require Import Base.Prelude Gen.Generated Typed.Prim Typed.Schema Typed.Derive Typed.Hand Typed.DictProofs.
 
 Definition k_Subtype : bytes := [83; 117; 98; 116; 121; 112; 101].
 Definition k_BaseFont : bytes := [66; 97; 115; 101; 70; 111; 110; 116].
@@ -40,36 +40,83 @@ Definition read_font (allow : bool) (E : env) (fuel : nat) (p : prim) : tres val
     end
   end.
 
-(* font.rs: impl ObjectWrite for Font — `let mut dict = d.to_dict(update)?` : the typed part only *)
+Fixpoint mem_key (k : bytes) (l : list bytes) : bool :=
+  match l with [] => false | x :: t => beqb k x || mem_key k t end.
+
+(* font.rs: impl ObjectWrite for Font (after fix C15-e) — the entries of `_other` whose key the typed part does not map
+   (FontData::mapped_keys, generated) and which the typed part did not write are written back *)
+Fixpoint merge_other (mapped : list bytes) (other : dict) (d : dict) : dict :=
+  match other with
+  | [] => d
+  | (k, v) :: t =>
+    merge_other mapped t (if font_writer_merges_other && negb (mem_key k mapped) && negb (dhas k d) then dinsert k v d else d)
+  end.
+
 Definition write_font (fuel : nat) (v : value) : tres prim :=
   match v, tfont_ty with
-  | VPair (VName st) (VPair name (VPair data (VDict _))), Some t =>
+  | VPair (VName st) (VPair name (VPair data (VDict other))), Some t =>
     tdo p <- write gen_schemas hands fuel t data;
     match p with
     | PDict d =>
-      let d1 := match name with VSome (VName n) => dinsert k_BaseFont (PName n) d | _ => d end in
+      let d0 := merge_other font_mapped_keys_tfont other d in
+      let d1 := match name with VSome (VName n) => dinsert k_BaseFont (PName n) d0 | _ => d0 end in
       TOk (PDict (dinsert TypeKey (PName n_Font) (dinsert k_Subtype (PName st) d1)))
     | _ => ill_typed
     end
   | _, _ => ill_typed
   end.
 
-(** C15-e: Font keeps unrecognised entries (`_other`) but does not write them back *)
+(** the tie of the hand-maintained key list to the derived struct: FontData::mapped_keys lists exactly the keys of
+    TFont's (resp. Type0Font's) fields — a field added to the struct without the list fails here *)
+Definition struct_keys (n : bytes) : list bytes :=
+  match struct_by_name gen_schemas n with
+  | Some (_, s) => map f_key (filter (fun fd => negb (f_other fd || f_skip fd)) (s_fields s))
+  | None => []
+  end.
+Lemma font_mapped_keys_match :
+  font_mapped_keys_tfont = struct_keys n_TFont /\
+  font_mapped_keys_type0 = struct_keys [84; 121; 112; 101; 48; 70; 111; 110; 116] /\
+  font_writer_merges_other = true.
+Proof. vm_compute. repeat split; reflexivity. Qed.
+
+(** merge: an entry of `_other` with an unmapped key is in the result (its own value, or the one already written) *)
+Lemma dhas_dinsert_mono k k' v d : dhas k d = true -> dhas k (dinsert k' v d) = true.
+Proof.
+  unfold dhas. destruct (beqb k k') eqn:E.
+  - apply beqb_eq in E. subst k'. rewrite dget_dinsert_same. reflexivity.
+  - rewrite (dget_dinsert_other k k' v d E). exact (fun H => H).
+Qed.
+
+Lemma merge_other_mono mapped other : forall d k, dhas k d = true -> dhas k (merge_other mapped other d) = true.
+Proof.
+  induction other as [|[k' v'] t IH]; intros d k Hk; [exact Hk|].
+  cbn [merge_other]. apply IH.
+  destruct (font_writer_merges_other && negb (mem_key k' mapped) && negb (dhas k' d)); [|exact Hk].
+  apply dhas_dinsert_mono. exact Hk.
+Qed.
+
+Lemma merge_other_keeps mapped other : forall d k v,
+  font_writer_merges_other = true -> dget k other = Some v -> mem_key k mapped = false ->
+  dhas k (merge_other mapped other d) = true.
+Proof.
+  induction other as [|[k' v'] t IH]; intros d k v Hm Hg Hk; [discriminate|].
+  cbn [dget] in Hg. cbn [merge_other]. rewrite Hm. cbn [andb].
+  destruct (beqb k k') eqn:E.
+  - apply beqb_eq in E. subst k'. rewrite Hk. cbn [negb andb]. apply merge_other_mono.
+    destruct (dhas k d) eqn:Hd; cbn [negb]; [exact Hd|]. unfold dhas. rewrite dget_dinsert_same. reflexivity.
+  - eapply IH; eassumption.
+Qed.
+
+(** C15-e (fixed): the witness dictionary's unrecognised entry /Zz1 7 is written back *)
 Definition font_witness : dict :=
   [(TypeKey, PName n_Font); (k_Subtype, PName n_Type1); (k_BaseFont, PName [72]); ([90; 122; 49], PInt 7)].
 
-Lemma font_other_refuted : exists k x v dw,
+Lemma font_other_written : exists v dw,
   read_font false [] 16 (PDict font_witness) = TOk v /\ write_font 16 v = TOk (PDict dw) /\
-  dget k font_witness = Some x /\
-  (exists st name data other, v = VPair st (VPair name (VPair data (VDict other))) /\ dget k other = Some x) /\
-  dget k dw = None.
-Proof.
-  exists [90; 122; 49], (PInt 7). eexists. eexists.
-  split; [vm_compute; reflexivity|]. split; [vm_compute; reflexivity|]. split; [reflexivity|].
-  split; [do 4 eexists; split; [reflexivity|vm_compute; reflexivity]|vm_compute; reflexivity].
-Qed.
+  dget [90; 122; 49] dw = Some (PInt 7).
+Proof. do 2 eexists. split; [vm_compute; reflexivity|]. split; vm_compute; reflexivity. Qed.
 
-(* the typed part does go round: the second write equals the first *)
+(* the second write equals the first *)
 Example font_typed_part_rt :
   tbind (tbind (read_font false [] 16 (PDict font_witness)) (write_font 16))
         (fun p => tbind (read_font false [] 16 p) (write_font 16))
